@@ -150,7 +150,7 @@ def read_position(block, pos, failures, subject_guard):
 
 def read_star_branch(src, failures):
     res = {'wrap': [], 'inc': [], 'args_ok': False, 'keep': None, 'restore': None, 'order_ok': False, 'graph_nest0': False,
-           'allconst_first': False, 'tail_ok': False, 'allconst_keeps_frame': False}
+           'allconst_first': False, 'tail_ok': False, 'allconst_keeps_frame': False, 'noref_placeholder': False}
     try:
         fn = src.func('materializer.py', '_materialize_rml_rule')
     except KeyError:
@@ -195,8 +195,18 @@ def read_star_branch(src, failures):
     sb = star.body
     ok = len(sb) == 4
     if ok:
-        ok = (isinstance(sb[0], ast.If) and norm(sb[0].test) == 'data is None' and not sb[0].orelse
-              and [norm(s) for s in sb[0].body] == ['data = _get_data(config, rml_rule, references, python_source)'])
+        fetch = ['data = _get_data(config, rml_rule, references, python_source)']
+        if isinstance(sb[0], ast.If) and norm(sb[0].test) == 'data is None and references':
+            # the repaired shape (fix "quoting rule without any reference"): data is fetched only when the rule has references,
+            # otherwise the rule works on the one-row placeholder frame
+            oe = sb[0].orelse
+            ok = ([norm(s) for s in sb[0].body] == fetch and len(oe) == 1 and isinstance(oe[0], ast.If)
+                  and norm(oe[0].test) == 'data is None' and not oe[0].orelse
+                  and [norm(s) for s in oe[0].body] == [placeholder_stmt])
+            res['noref_placeholder'] = bool(ok)
+        else:
+            ok = (isinstance(sb[0], ast.If) and norm(sb[0].test) == 'data is None' and not sb[0].orelse
+                  and [norm(s) for s in sb[0].body] == fetch)
         ok = ok and isinstance(sb[1], ast.If) and is_quoted_test(sb[1].test, 'subject')
         ok = ok and isinstance(sb[2], ast.If) and is_quoted_test(sb[2].test, 'object')
         ok = ok and norm(sb[3]) == 'data = _materialize_rml_rule_terms(data, rml_rule, fnml_df, config)'
@@ -486,6 +496,9 @@ def joinSuffixed : Bool := {lean_bool(merge['join_suffixed'])}
 /-- an all-constant rule keeps the frame that was passed down (or fetches its own data when join references were passed) and
     uses the one-row placeholder frame only when materialised on its own (`false`: always the placeholder frame) -/
 def allConstKeepsFrame : Bool := {lean_bool(star['allconst_keeps_frame'])}
+/-- the quoted branch of `_materialize_rml_rule` fetches its data only when the rule has references and works on the one-row
+    placeholder frame otherwise (`false`: it always calls `_get_data`, which returns no row for an empty reference set) -/
+def noRefPlaceholder : Bool := {lean_bool(star['noref_placeholder'])}
 /-- the graph term is appended iff `nest_level == 0 and config.get_output_format() == NQUADS` -/
 def graphAtNestZeroOnly : Bool := {lean_bool(star['graph_nest0'])}
 /-- the recursion without join condition receives `data=data`; the recursion with join condition receives
